@@ -120,7 +120,7 @@ def notifications(ctx, P, views, iters):
             if ci is not None and ci.name in P.subclasses("StateTracker"):
                 continue
             ob.seen("site:%s:%s" % (rules.qual(ci, fn), h))
-            if fn.name not in spec or spec[fn.name] != h:
+            if not any(spec.get(nm) == h for nm in rules.effective_names(P, ci, fn)):
                 ctx.violation(ob, "R2.notify", rules.qual(ci, fn), unparse(call), "notification-without-transition",
                               "%s called from a method that performs no such transition" % h, loc(call))
 
@@ -169,7 +169,7 @@ def classchange_order(ctx, P, views, iters):
             if e.kind == "assign" and not e.d.get("local"):
                 return e.d["target"].endswith(".customer_class") or e.d["target"].endswith(".previous_class")
             return _notif(e) and e.d["meth"] == "change_state_classchange"
-        w = Walker(P, view, keep=keep, inline=lambda ev: False, loop_iters=iters)
+        w = Walker(P, view, keep=keep, inline=rules.new_helper, loop_iters=iters)
         for st in w.paths_of(cls, fn):
             if st.status == "raise":
                 continue
@@ -335,7 +335,7 @@ def symmetry(ctx, P, iters):
         v = P.view(c)
         cls, fn = v.method("timestamp")
         w = Walker(P, v, keep=lambda e: e.kind == "guard" or (e.kind == "call" and e.d["meth"] == "append") or (e.kind == "assign" and e.d.get("local")),
-                   track=lambda t, f: True, inline=lambda ev: False)
+                   track=lambda t, f: True, inline=rules.new_helper)
         okk = False
         for st in w.paths_of(cls, fn):
             apps = [e for e in st.events if e.kind == "call"]
@@ -404,7 +404,7 @@ def loops(ctx, P, iters):
             if e.kind == "assign":
                 return e.d["target"] == "self.current_time"
             return e.kind in ("iter", "loopexit") and isinstance(e.node, ast.While)
-        w = Walker(P, sim, keep=keep, inline=lambda ev: False, loop_iters=iters)
+        w = Walker(P, sim, keep=keep, inline=rules.new_helper, loop_iters=iters)
         seen_iter = False
         for st in w.paths_of(cls, fn):
             if st.status == "raise":
